@@ -250,7 +250,7 @@ PROPS['C14'] = {
     'assumptions': [
         "the resource model has three fault classes (open temp, write state, copy log); which write call / byte budget fails inside a class is quantified by the correspondence, not by the model",
     ],
-    'level_text': "Lean theorems over the Snapshot resource machine (recorder slot, descriptors, temp files), for every fault combination and every history of calls: an error is returned exactly when something failed; afterwards the recorder is released and no descriptor or temp file is left; a concurrent second snapshot is refused without leak; a later healthy snapshot succeeds; counterexample for the code before the repair (D5). The clean-up actions (defers right after the open, clean-up on CAS failure, close before copy) are read from the regenerated skeleton. Tied to the code by injecting a failure at every write call and byte budget (once / forever) on empty, one-chunk and three-chunk collections, comparing the observed (recorder, fd delta, temp delta, error) with the model, and checking that commits and a healthy snapshot + restore still work.",
+    'level_text': "Lean theorems over the Snapshot resource machine (recorder slot, descriptors, temp files, running compressor goroutines), for every fault combination and every history of calls: an error is returned exactly when something failed; afterwards the recorder is released and no descriptor, temp file or goroutine is left; a concurrent second snapshot is refused without leak; a later healthy snapshot succeeds; counterexamples for the code before the repairs (D5; D27: 54 snapshots leave 108 goroutines). The clean-up actions (defers right after the open, clean-up on CAS failure, close before copy, both compressors closed) are read from the regenerated skeleton. Tied to the code by injecting a failure at every write call and byte budget (once / forever) on empty, one-chunk and three-chunk collections, comparing the observed (recorder, fd delta, temp delta, goroutine delta, error) of every call with the model, and checking that commits (multi-column write and read-back, a write to every chunk within 10 s), a healthy snapshot + restore still work; shapes: empty, one chunk, three chunks, one chunk larger than the compressor's block, the same with a transaction committing during the snapshot; failing snapshots beside writers on a collection with a commit log (every committed transaction reaches the log).",
     'technique': 'Lean 4 proof (case analysis over fault combinations, induction over call histories) + regenerated protocol skeleton + fault-injection correspondence',
     'design_ref': '§6 C14',
 }
